@@ -185,7 +185,9 @@ PROPS["C20"] = {
             "(4) fault injection: child processes with RLIMIT_AS lowered so that every mmap fails and ordinary concurrent Acquire calls take the fallback. "
             "Oracle: regions pairwise disjoint, inside the reserve, at least as large as requested, written through stub.Write and read back, executed "
             "(MOV EAX,imm;RET). Non-trivial: a sequence with >=2 successful regions or reaching exhaustion, a concurrent round in which >=2 requesters "
-            "obtained regions, an Acquire sequence of >=2 sizes; distinct by the drawn sizes/goroutine count.",
+            "obtained regions, an Acquire sequence of >=2 sizes; distinct by the drawn sizes/goroutine count. consumers: rapid histories of interface mocks "
+            "(apply / stub / Cancel / Reset / another interface through a second builder) with the method tables of all variables read after every step: "
+            "a stub address outside the text image that newly appears in a slot must never have appeared in any slot before in the life of the process.",
     "assumptions": ["the harness does not own the scheduler: the concurrent units are seeded stress searches (sound under any interleaving, incomplete)",
                     "RLIMIT_AS is honoured by the kernel for anonymous mmap (child rounds where the Go runtime itself dies of the limit are counted as excluded)"],
     "floors": [("fallback-concurrent", "rounds-with>=2-successful-requesters", 10), ("acquire", "fallback", 5), ("acquire", "mmap", 50),
@@ -348,7 +350,8 @@ PROPS["C08"] = {
             "every kind (scalars, strings, slices, maps, structs, arrays, pointers, funcs, interfaces incl. nil originals, chan; exported and unexported; "
             "addressed by pointer or by 'package.name'). Oracle after every step: the variable read directly and through a non-inlined accessor holds "
             "the mocked value, after Cancel/Reset bit-exactly the value it had before its first mock in that builder (identity for reference kinds); "
-            "no panic. Non-trivial: a restore after >=2 Sets, a Cancel without Set, or a double restore; distinct by the operation-kind sequence.",
+            "no panic. A variable is driven through fresh lookups or through one kept handle; lookup (handle obtained, nothing done) and assign (the program assigns the "
+            "variable before its first mock in the builder, possibly after the handle exists) are operations too. Non-trivial: a restore after >=2 Sets, a Cancel without Set, or a double restore; distinct by the operation-kind sequence.",
     "assumptions": ["Apply on an unexported-variable mocker and Set(nil) for interface-typed variables are not generated/judged (DESIGN 5.3)"],
     "floors": [("histories", "restore-after->=2-sets", 100), ("histories", "cancel-without-set", 50), ("histories", "by-name", 100)],
 }
@@ -366,7 +369,7 @@ PROPS["C06"] = {
             "identity / bit-exact copy), every other method of every type runs its original body exactly once per call. generics: Return-stubs on "
             "methods/functions of G[T] for T in int,int64,string,*GA,*GB,GS; instantiations of a different GC shape and other methods must be unaffected. "
             "concurrent-methods: 2..4 different methods of one type are mocked at the same moment by goroutines with their own builders (4 rounds); "
-            "each named method must then run exactly its own callback. "
+            "each named method must then run exactly its own callback. A type named t08 also exists in the harness' own package and is addressed without Pkg(...). "
             "Non-trivial: a history with a call on a mocked method or a call-all sweep while something is mocked; distinct by the op/tag sequence.",
     "assumptions": ["Struct(x) is given the receiver kind the method declares (README)", "callbacks on generic methods/functions are an open known finding: only Return-stubs are judged there"],
     "floors": [("methods", "call/mocked/value-receiver", 50), ("methods", "call/mocked/unexported-method", 50), ("methods", "call/mocked/unexported-type", 30),
@@ -385,7 +388,8 @@ PROPS["C07"] = {
             "GC + churn. Oracle: model {variable -> {slot -> replacement}}: variable non-nil after the first mock; a mocked slot reaches its own "
             "replacement with the caller's arguments; an unmocked slot panics with 'method not implements'; variables are independent; after "
             "Reset the variable's two words equal the pre-mock words; mocks survive dropped builders and collections. Non-trivial: a history with "
-            "an unmocked-slot call, a Reset of a mocked variable or a drop+GC; distinct by (interface, op sequence).",
+            "an unmocked-slot call, a Reset of a mocked variable or a drop+GC; distinct by (interface, op sequence). A copy op hands the mocked value to another "
+            "variable of the interface type: it must answer like the first variable (also after re-mocks, dropped builders and collections) until the mock is reset.",
     "assumptions": ["process death (e.g. a stub jumping through collected memory) is turned into a violation by re-executing the journalled case"],
     "floors": [("histories", "call/unmocked-slot-panics", 100), ("histories", "call/mocked-slot-after-gc", 100),
                ("histories", "call/mocked-slot-after-builder-dropped", 50), ("histories", "variable-with->=2-mocked-slots", 100),
@@ -460,7 +464,8 @@ PROPS["C12"] = {
             "2 methods of one interface variable, one variable, one function addressed only by name (ExportFunc.As) and one unexported method (Struct.ExportMethod.As), every instruction given through a freshly looked-up handle (Func / Struct.Method / "
             "Interface.Method.As / Var). Oracle: last-writer-wins reference model (Apply -> callback; Return/When on a live stub configuration extends it, "
             "after an Apply or a Cancel/Reset starts a fresh one); after every instruction every target is called and must behave by its most recent "
-            "instruction. Plus a deterministic check that Pkg affects exactly the next lookup. Non-trivial: a history in which some target alternates "
+            "instruction. Two targets live in another package and are addressed only as Pkg(p).ExportFunc(name).As / Pkg(p).ExportStruct(\"*t\").Method(name).As; a gc op "
+            "(collection + heap reuse) may come between instructions. Plus a deterministic check that Pkg affects exactly the next lookup. Non-trivial: a history in which some target alternates "
             ">=2 times between callback and stub; distinct by the (op,target) sequence.",
     "assumptions": ["one handle kind per target (Func and ExportFunc on the same function within one builder are not mixed)"],
     "floors": [("histories", "target-with->=2-callback/stub-alternations", 200), ("histories", "pkg-override-next-lookup-only", 1),
@@ -499,7 +504,7 @@ PROPS["C02"] = {
             "run their original body, unambiguously mocked targets show the entry jump and behave by their latest mock; where two owners shared a "
             "target and one restored, only the byte invariant and 'pristine bytes <=> original behaviour' are asserted. After all builders are reset "
             "the image is pristine outside placeholder bodies. A second unit puts a refused apply (origin placeholder on a zoo prologue goom cannot relocate) "
-            "into histories of apply/stub/reset/cancel by two builders: a refusal after everything was reset must leave pristine entry bytes. Non-trivial: a restore after a re-apply or with a second owner; distinct by window and op sequence.",
+            "into histories of apply/stub/reset/cancel by two builders: a refusal after everything was reset must leave pristine entry bytes. After half of the Resets the builder and the handles obtained from it stay in use. Non-trivial: a restore after a re-apply or with a second owner; distinct by window and op sequence.",
     "assumptions": ["calls that reach an origin placeholder run with stack headroom and GC paused (open finding C03/origin-morestack-reentry is excluded by construction)"],
     "floors": [("histories", "history/restore-after-reapply-or-second-owner", 100), ("histories", "history/two-owners-on-one-target", 50),
                ("histories", "history/with-origin-placeholder", 50), ("histories", "instruction-through-a-kept-handle", 100),
@@ -551,7 +556,7 @@ PROPS["C11"] = {
 }
 
 PROPS["C19"] = {
-    "prepare": [prep_corpus],
+    "prepare": [prep_refdecoders, prep_corpus],
     "units": [
         {"name": "scenarios", "pkg": "./zverif/c19", "run": "^TestVerifC19$", "timeout": {"quick": 500, "thorough": 3000},
          "shards": {"quick": 1, "thorough": 16}},
@@ -563,7 +568,9 @@ PROPS["C19"] = {
             "panic, structs with unexported pointer/interface/func fields, 200000-element slices, nil **int; and a second one over arrays passed by value ([64]byte, [40]int, "
             "nested arrays in structs, [0]int), maps with nil values, channels, funcs, unsafe.Pointer, complex numbers) and plays it four times: logging off, "
             "OpenDebug, OpenTrace, off again, and for 1 in 8 in a child process started with GOOM_DEBUG=1. Oracle (metamorphic): the transcripts "
-            "(calls, arguments recorded by callbacks, results, panic classes; values by content) are identical. Every scenario is non-trivial; "
+            "(calls, arguments recorded by callbacks, results, panic classes; values by content) are identical. Added scenario kinds: text (long, multi-byte, "
+            "invalid-UTF-8 and control-character strings / byte slices / error texts of 0..600 bytes as arguments and results) and origin (zoo functions mocked "
+            "with an origin placeholder; the trampoline written into the placeholder is validated with the reference decoder before the forwarding callback is run). Every scenario is non-trivial; "
             "distinct by (kind, target, value codes).",
     "assumptions": ["self-containing slices/maps reachable through interface{} are not generated (fmt itself overflows the stack on them)"],
     "floors": [("scenarios", "scenario/hostile", 30), ("scenarios", "scenario/hostile2", 20), ("scenarios", "scenario/reapply", 20), ("scenarios", "scenario/iface", 15), ("scenarios", "transcripts-with-a-panic", 10), ("scenarios", "compared-with-GOOM_DEBUG-child", 5)],
